@@ -473,12 +473,16 @@ def no_early_exit(ctx, rr):
     P = ctx.P
     n = 0
     for u in P.units:
-        if u.cls not in ('Traph', 'LinkStore'):
+        if u.cls not in ('Traph', 'LinkStore', 'LRUTrie'):
             continue
         for lp in P.own(u, (ast.For, ast.While)):
-            is_iter_loop = isinstance(lp, ast.For) and isinstance(lp.iter, ast.Call) and any(t.is_gen for t in P.targets(lp.iter))
+            is_iter_loop = u.cls != 'LRUTrie' and isinstance(lp, ast.For) and isinstance(lp.iter, ast.Call) and any(t.is_gen for t in P.targets(lp.iter))
             is_walk_loop = isinstance(lp, ast.While) and u.cls == 'LinkStore' and 'has_previous' in ast.unparse(lp.test)
-            if not (is_iter_loop or is_walk_loop):
+            # the stack-driven traversals of the trie: `while <stack>` with a pop in the body
+            tn = {x.id for x in ast.walk(lp.test) if isinstance(x, ast.Name)} if isinstance(lp, ast.While) else set()
+            is_stack_loop = u.cls == 'LRUTrie' and u.is_gen and bool(tn) and any(
+                isinstance(c, ast.Call) and isinstance(c.func, ast.Attribute) and c.func.attr == 'pop' and isinstance(c.func.value, ast.Name) and c.func.value.id in tn for c in ast.walk(lp))
+            if not (is_iter_loop or is_walk_loop or is_stack_loop):
                 continue
             n += 1
             brk = None
